@@ -1242,6 +1242,12 @@ def run(ctx):
                     ctx.disagreement("opt model vs pdsh -R exec run (settings in use)", "impl `%s` model `%s`" % (want, umod[i]), case)
                 if rc is not None and rc < 0:
                     ctx.offender("crash", "pdsh killed by signal %d" % -rc, case)
+                if c.use == "user" and rc == 0 and umod[i].startswith("ok "):
+                    # the model's `contacts` (composition with the registry model of C09): host -> user
+                    mu = [w[6:] for w in umod[i].split(" ") if w.startswith("users=")]
+                    mmap = {unhex(x.split(":")[0]): unhex(x.split(":")[1]) for x in mu[0].split(",") if ":" in x} if mu else None
+                    if mmap != obs:
+                        ctx.disagreement("opt model (contacts) vs pdsh -R exec run", "targets contacted as %s, model %s" % (obs, mmap), case)
             if rc != 0:
                 continue
             if sp != "ok":
